@@ -404,7 +404,11 @@ def _relative_rois(
     align: Optional[int],
 ):
     _XY = tr.back(unstack_xy(gbox_boundary(dst, pts_per_side)))
-    roi_src = roi_from_points(stack_xy(_XY), src.shape, padding, align=align)
+    # without alignment first: when the padded envelope misses the source image the rasters
+    # do not overlap, aligning the envelope outwards must not bring it back into the image
+    roi_src = roi_from_points(stack_xy(_XY), src.shape, padding)
+    if align is not None and not roi_is_empty(roi_src):
+        roi_src = roi_from_points(stack_xy(_XY), src.shape, padding, align=align)
 
     if roi_is_empty(roi_src):
         return (roi_src, np.s_[0:0, 0:0])
